@@ -2,28 +2,7 @@
 //! crate straight from /repo's working tree (cfg walleye_verif is set by build.rs).
 #![allow(dead_code, unused_imports, unused_variables, clippy::all)]
 
-#[path = "/repo/src/board.rs"]
-mod board;
-#[path = "/repo/src/draw_table.rs"]
-mod draw_table;
-#[path = "/repo/src/engine.rs"]
-mod engine;
-#[path = "/repo/src/evaluation.rs"]
-mod evaluation;
-#[path = "/repo/src/move_generation.rs"]
-mod move_generation;
-#[path = "/repo/src/search.rs"]
-mod search;
-#[path = "/repo/src/time_control.rs"]
-mod time_control;
-#[path = "/repo/src/uci.rs"]
-mod uci;
-#[path = "/repo/src/utils.rs"]
-mod utils;
-#[path = "/repo/src/verif.rs"]
-mod verif;
-#[path = "/repo/src/zobrist.rs"]
-mod zobrist;
+include!(concat!(env!("OUT_DIR"), "/engine_mods.rs"));
 
 mod bb;
 mod ev;
